@@ -16,7 +16,7 @@ import (
 func TestC24(t *testing.T) {
 	r := kit.Start("C24", "exploration")
 	defer r.Finish()
-	r.Rule = "inputs = all byte strings of length<=3 over {00,01,'a',FF} + {1KiB zeros, 1KiB counter, 70000B repetitive}; for each of Gzip/LZ4/Snappy/Zstd: round trip, then every truncation, every single-byte substitution (quick: 7 boundary values per offset, thorough: all 255) and every adjacent-pair swap of the compressed form (quick: lz4 and zstd, at ~3 ms per call because of large buffer allocations, see every 8th of the 3-byte inputs and one large input; lz4 also only 2 substitution values per offset); non-trivial = a corrupted form whose bytes differ from the pristine compressed form (distinct by algo+input+mutation)"
+	r.Rule = "inputs = all byte strings of length<=3 over {00,01,'a',FF} + {1KiB zeros, 1KiB counter, 70000B repetitive}; for each of Gzip/LZ4/Snappy/Zstd: round trip; results-are-values (every ordered pair A,B of the inputs of length <= 2: Compress(A), Compress(B) on the same and on a second compressor object, then the first result must be byte-identical to the copy taken when it was returned and still decompress to A; the same for Decompress results); then every truncation, every single-byte substitution (quick: 7 boundary values per offset, thorough: all 255) and every adjacent-pair swap of the compressed form (quick: lz4 and zstd, at ~3 ms per call because of large buffer allocations, see every 8th of the 3-byte inputs and one large input; lz4 also only 2 substitution values per offset); non-trivial = a corrupted form whose bytes differ from the pristine compressed form (distinct by algo+input+mutation)"
 	r.Assumptions = []string{"corruptions are limited to truncation, one substituted byte, or one adjacent swap per compressed form", "third-party codecs are exercised only through compressor.Compressor"}
 	algos := []struct {
 		n string
@@ -77,6 +77,53 @@ func TestC24(t *testing.T) {
 	}
 
 	r.Parallel(16, "TestC24", func() {
+		// Results are values, not views: a compressed (or decompressed) result the caller still holds must not be
+		// changed by a later call on the same or another compressor object. Every ordered pair of the small inputs:
+		// ca = Compress(A); cb = Compress(B); then ca must still decompress to A (and be byte-identical to a copy
+		// taken when it was returned), likewise for Decompress results.
+		if sh, _ := r.Shard(); sh == 0 {
+			small := inputs
+			if len(small) > 22 {
+				small = inputs[:22] // all inputs of length <= 2 over the 4-symbol alphabet, plus the empty one
+			}
+			for _, a := range algos {
+				if r.Quick() && (a.n == "lz4" || a.n == "zstd") {
+					small = inputs[:6]
+				}
+				c1, c2 := compressor.New(a.t), compressor.New(a.t)
+				for ai2, A := range small {
+					for bi, B := range small {
+						for _, second := range []compressor.Compressor{c1, c2} {
+							r.Eval(1)
+							ca, err := c1.Compress(A)
+							if err != nil {
+								continue
+							}
+							keep := append([]byte(nil), ca...)
+							cb, err2 := second.Compress(B)
+							da, err3 := c1.Decompress(ca)
+							cs := map[string]any{"algo": a.n, "A": fmt.Sprintf("%x", A), "B": fmt.Sprintf("%x", B)}
+							if !bytes.Equal(ca, keep) {
+								r.Fail("roundtrip", a.n+":earlier-result-overwritten-by-a-later-call", fmt.Sprintf("%s: the bytes returned by Compress(%x) changed when Compress(%x) was called afterwards", a.n, A, B), cs)
+							} else if err3 != nil || !bytes.Equal(da, A) {
+								r.Fail("roundtrip", a.n+":earlier-result-overwritten-by-a-later-call", fmt.Sprintf("%s: Compress(%x), then Compress(%x), then Decompress of the first result gives %x, err %v", a.n, A, B, da, err3), cs)
+							}
+							if err2 == nil {
+								keepA := append([]byte(nil), da...)
+								db, _ := second.Decompress(cb)
+								if !bytes.Equal(da, keepA) {
+									r.Fail("roundtrip", a.n+":earlier-result-overwritten-by-a-later-call", fmt.Sprintf("%s: the bytes returned by Decompress changed when another Decompress was called afterwards (A=%x B=%x)", a.n, A, B), cs)
+								}
+								_ = db
+							}
+							if ai2 != bi {
+								r.Nontrivial(fmt.Sprintf("pair/%s/%d/%d", a.n, ai2, bi))
+							}
+						}
+					}
+				}
+			}
+		}
 		item := 0
 		for ai, a := range algos {
 			if f := os.Getenv("VERIF_C24_ALGO"); f != "" && f != a.n {
